@@ -3,6 +3,7 @@ package world
 import (
 	"encoding/json"
 	"fmt"
+	"strings"
 	"unicode/utf8"
 
 	"gfverif/gen"
@@ -224,6 +225,11 @@ func (o *C05) AfterCall(w *World, c *Call) {
 		switch e["type"] {
 		case "failure":
 			hasFailure = true
+			// hitting a limit ends the *session* as failed, wherever in the run tree it was hit
+			if txt, _ := e["text"].(string); (strings.Contains(txt, "maximum number of steps") || strings.Contains(txt, "maximum number of resumes")) && s.Status() != flows.SessionStatusFailed {
+				v("limit-fails-session", "limit-hit-session-"+string(s.Status()), fmt.Sprintf("the sprint logged the failure %q but the session was handed back %s after %s", txt, s.Status(), kind))
+				return
+			}
 		case "msg_received", "wait_timed_out", "run_expired", "dial_ended":
 			accepted = true
 		}
